@@ -67,8 +67,9 @@ def scenario(bins, idx, rng):
                 time.sleep(rng.choice([0, 0.003, 0.015, 0.05]))
                 ro = open(os.path.join(fx.root, "fr-%d.out" % nproc), "wb")
                 ts0 = time.monotonic_ns()
-                rapi = rng.choice(["result_show", "analyze"])
-                rp = fx.spawn(["result", "show"] if rapi == "result_show" else ["analyze"], stdout=ro, stderr=subprocess.DEVNULL)
+                rapi = rng.choice(["result_show", "analyze", "cp_show"])
+                rp = fx.spawn({"result_show": ["result", "show"], "analyze": ["analyze"], "cp_show": ["checkpoint", "show"]}[rapi],
+                              stdout=ro, stderr=subprocess.DEVNULL)
                 readers.append((nproc, rp, ro, ts0, rapi))
             victim = rng.choice(wave_procs) if rng.random() < 0.35 else None
             if victim is not None:
@@ -132,6 +133,27 @@ def scenario(bins, idx, rng):
                     events.append({"e": "answered", "p": n, "ok": rp.returncode == 0, "ts": ts,
                                    "checkpointed": bool(doc.get("checkpointed")) if rp.returncode == 0 else False,
                                    "targets": [t.split("/") for t in doc["targets"]] if rp.returncode == 0 else []})
+                    reader_ids.append(n)
+                    continue
+                if rapi == "cp_show":
+                    try:
+                        doc = json.load(open(os.path.join(fx.root, "fr-%d.out" % n)))
+                    except (OSError, ValueError):
+                        doc = None
+                    cpd = doc.get("checkpoint") if isinstance(doc, dict) else None
+                    if rp.returncode == 0 and not (isinstance(cpd, dict) and isinstance(cpd.get("id"), str)):
+                        continue        # an answer the driver cannot place
+                    ev = {"e": "cp_shown", "p": n, "ok": rp.returncode == 0, "ts": ts, "id": 0, "pend": {"af": -1, "bf": -1, "cf": -1}}
+                    if rp.returncode == 0:
+                        inv_paths = {v: k for k, v in session.PATHS.items()}
+                        ev["id"] = commits.index(cpd["id"]) + 1 if cpd["id"] in commits else -1
+                        for path, sha in (cpd.get("pending") or {}).items():
+                            if path in inv_paths:
+                                ev["pend"][inv_paths[path]] = 0 if sha == "" else (1 if sha == session.sha(1) else 2 if sha == session.sha(2) else -2)
+                            else:
+                                ev["id"] = -1       # a path the scenario never touched: no instant offers it
+                    events.append({"e": "start", "p": n, "api": "cp_show", "ts": ts0})
+                    events.append(ev)
                     reader_ids.append(n)
                     continue
                 slot = 0
@@ -247,8 +269,8 @@ def stage(chk, bins, pid, n):
                 ok2, _ = validate(bare, tmp)
                 if ok2:
                     acc += 1
-                    chk.notes.append({"MODEL-DRIFT": "free-running trace %d: a concurrent reader (`result show` / `analyze`) answered something no instant of the explained behaviour offers, or a run covered other targets than the ones affected when it read the repository" % rec["idx"],
-                                      "readers": [e for e in rec["events"] if e.get("e") in ("shown", "answered")]})
+                    chk.notes.append({"MODEL-DRIFT": "free-running trace %d: a concurrent reader (`result show` / `analyze` / `checkpoint show`) answered something no instant of the explained behaviour offers, or a run covered other targets than the ones affected when it read the repository" % rec["idx"],
+                                      "readers": [e for e in rec["events"] if e.get("e") in ("shown", "answered", "cp_shown")]})
                     print("NOTE: MODEL-DRIFT free-running trace %d: concurrent reader not explained" % rec["idx"])
                     continue
                 rec = bare
